@@ -20,7 +20,7 @@ import numpy as np
 
 ID = "C18"
 SHARDS = {"quick": 8, "thorough": 16}
-BUDGET = {"quick": 60, "thorough": 420}
+BUDGET = {"quick": 300, "thorough": 1800}
 ENGINE = "purity monitor"
 TECHNIQUE = ("runtime monitoring: argument snapshot/compare wrappers installed on "
              "every public function / method + repeat-call comparison under a "
